@@ -69,6 +69,13 @@ def loop : (fuel : Nat) → (i T t : Nat) → List Nat
   | 0, _, _, _ => []
   | f + 1, i, T, t => if t < T then t :: loop f i T (t + i) else []
 
+/-- the same loop when every `time.sleep(i)` + message construction really takes `i + d k` ms (`d k ≥ 0`: scheduling
+    latency, encoding time): `transmission_time` still counts nominal intervals, `now` is the real elapsed time at which
+    the DENM is handed over -/
+def loopDrift (d : Nat → Nat) : (fuel : Nat) → (i T t now k : Nat) → List Nat
+  | 0, _, _, _, _, _ => []
+  | f + 1, i, T, t, now, k => if t < T then now :: loopDrift d f i T (t + i) (now + i + d k) (k + 1) else []
+
 /-- offsets of the DENMs of one request, `i > 0`: every step advances `t` by `i ≥ 1`, so `T` steps are enough fuel -/
 def offsets (i T : Nat) : List Nat := loop T i T 0
 
